@@ -210,6 +210,16 @@ def run_case(case):
                 if o != "exc":
                     loops[tid]["ended"] = True
                 rec("exit", tid, o)
+                if o == "exc":
+                    # a callback scheduled with call_soon right after the failure: it must get to run before the next
+                    # invocation (restarts happen at most one per loop iteration) ...
+                    loop.call_soon(lambda: rec("tick", tid))
+                    # ... and a cancel()/stop() it requests must prevent that invocation
+                    if sp.get("after") == "cancel":
+                        loop.call_soon(self.cancel)
+                    elif sp.get("after") == "stop":
+                        loop.call_soon(lambda: harness_tasks.append(
+                            asyncio.create_task(do_call(self.stop, "stop", self.idx, None))))
 
             for d in sp["awaits"]:
                 try:
@@ -688,6 +698,8 @@ def case_term(case, obs):
 LIMITS = [0, 1, 3, None, "default", 0, 1, 3, None, "default", -1, 5]
 DELAYS = [None, None, {"how": "base"}, {"how": "subclass", "ms": 250}, {"how": "subclass", "ms": 2000}, {"how": "subclass", "ms": 7000},
           {"how": "subclass", "ms": 30000}, {"how": "instance", "ms": 250}, {"how": "instance", "ms": 7000}, {"how": "instance", "ms": 30000},
+          # a delay of exactly 0: `await asyncio.sleep(0)` is then the only suspension point between two runs
+          {"how": "subclass", "ms": 0}, {"how": "instance", "ms": 0},
           # delays of a day and more (virtual time makes them free): 1 d, 36 h, 7 d, 1 d + 0.5 s
           {"how": "subclass", "ms": 86_400_000}, {"how": "instance", "ms": 129_600_000}, {"how": "subclass", "ms": 604_800_000},
           {"how": "instance", "ms": 86_400_500}]
@@ -711,6 +723,8 @@ def gen_run_script(rng, allow_self=True):
     out = {"awaits": awaits, "end": end, "on_cancel": on_cancel}
     if rng.random() < 0.15:       # the run logic spawns a helper task and registers it through self.tasks
         out["spawn"] = {**gen_extra(rng), "via": "tasks"}
+    if end == "exc" and rng.random() < 0.2:    # cancel()/stop() requested from a call_soon callback right after the failure
+        out["after"] = rng.choice(["cancel", "stop"])
     return out
 
 
@@ -805,7 +819,7 @@ def gen_run_case(rng):
                    "on_cancel": [rng.choice(["prop", "ret", "exc"])] if rng.random() < 0.3 else []}
                   for k in range(nruns)]
         actors.append(with_delay({"limit": rng.choice([0, 1, 3, None]), "script": script, "name": name,
-                                  "cls": "A" if classing == "same" else "ABC"[i]}, rng.choice(DELAYS[:7] + DELAYS[10:12])))
+                                  "cls": "A" if classing == "same" else "ABC"[i]}, rng.choice(DELAYS[:7] + DELAYS[10:14])))
     ops = []
     for i in range(nact):
         if rng.random() < 0.25:
@@ -945,6 +959,17 @@ def boundary_cases():
          "ops": [[0, "start", 0], [50, "stop", 0]], "settle_ms": 500},
         {"actors": [A(None, [{**S([100], "ret"), "spawn": {"via": "tasks", "awaits": [700], "end": "exc", "on_cancel": []}}])],
          "ops": [[0, "start", 0], [10, "wait", 0]], "settle_ms": 1500},
+        # restart delay exactly 0 and runs that raise before any suspension point; cancel/stop requested from a callback
+        # scheduled right after the k-th failure; limits None / finite
+        {"actors": [{**A(None, [S([], "exc")] * 6), "delay": {"how": "subclass", "ms": 0}}], "ops": [[0, "start", 0]], "settle_ms": 100},
+        {"actors": [{**A(30, [S([], "exc")] * 3 + [{**S([], "exc"), "after": "stop"}] + [S([], "exc")] * 4), "delay": {"how": "instance", "ms": 0}}],
+         "ops": [[0, "start", 0]], "settle_ms": 100},
+        {"actors": [{**A(None, [{**S([], "exc"), "after": "cancel"}] + [S([], "exc")] * 5), "delay": {"how": "subclass", "ms": 0}}],
+         "ops": [[0, "start", 0]], "settle_ms": 100},
+        {"actors": [{**A(3, [S([], "exc")] * 8), "delay": {"how": "instance", "ms": 0}}],
+         "ops": [[0, "start", 0], [0, "stop", 0]], "settle_ms": 100},
+        {"actors": [{**A(None, [S([0], "exc"), {**S([], "exc"), "after": "stop"}, S([], "exc"), S([], "ret")]), "delay": {"how": "base"}}],
+         "ops": [[0, "start", 0]], "settle_ms": 5000},
         # restart delays of a day and more: the `days` part of the timedelta counts
         {"actors": [{**A(1, [S([100], "exc"), S([100], "ret")]), "delay": {"how": "subclass", "ms": 86_400_000}}],
          "ops": [[0, "start", 0]], "settle_ms": 86_500_000},
@@ -1044,6 +1069,11 @@ class ActorStream(Stream):
             d = a.get("delay")
             out.append("delay=" + ("base" if not d or d["how"] == "base" else f"{d['how']}:{d['ms']}ms"))
         kinds = [e[1] for e in log]
+        if any(sp.get("after") for a in case["actors"] for sp in a["script"]):
+            out.append("cancel_or_stop_requested_by_callback_after_a_failure")
+        if any(not sp["awaits"] and sp["end"] == "exc" for a in case["actors"] for sp in a["script"]) and \
+           any((a.get("delay") or {}).get("ms") == 0 for a in case["actors"]):
+            out.append("zero_delay_and_run_raising_without_suspension")
         for i_, e in enumerate(log):
             if e[1] == "add" and i_ > 0 and log[i_ - 1][1] == "enter":
                 out.append("task_registered_from_inside_run")
